@@ -261,8 +261,26 @@ func genCffD(r *vlib.Rand, opt cffOpts) (*cffD, []string) {
 			d.fmats = append(d.fmats, vlib.Pick(r, matrices))
 		}
 		fixed := r.Chance(1, 6)
+		// nearly fixed pitch: fractional widths around 600 - "wobble" keeps all
+		// of them within 1/2 of the first (fixed pitch by definition), "creep"
+		// moves each by less than 1/2 from its neighbour but away from the first
+		// (not fixed pitch), with zero widths (skipped by the test) in between
+		near := 0
+		if !fixed && r.Chance(1, 5) {
+			near = 1 + r.Intn(2)
+			labels = append(labels, []string{"", "wd:near-fixed-wobble", "wd:near-fixed-creep"}[near])
+		}
+		creepStep := vlib.Pick(r, []float64{0.375, 0.25, 0.4375})
 		for i := 0; i < n; i++ {
 			g := glyphD{name: i + 1, width: genWidth(r, fixed)}
+			switch {
+			case near != 0 && i > 0 && r.Chance(1, 6):
+				g.width = 0
+			case near == 1:
+				g.width = 600 + float64(r.Range(-3, 3))/8
+			case near == 2:
+				g.width = 600 + float64(i)*creepStep
+			}
 			if i == 0 {
 				g.name = 0
 			}
